@@ -81,7 +81,8 @@ def gen_bayes_schedule(seed, k, m, rate):
         return {"one_shot": True, "faults": {}}
     Dy = m["y"].shape[1]
     sch = {"perm": r.perm(N), "routes": [r.wchoice(["a", "b", "c"], [2, 2, 1.2]) for _ in range(N)], "faults": {},
-           "yperms": [r.perm(Dy) if r.coin(0.5) else None for _ in range(N)], "ufs": [r.coin(0.5) for _ in range(N)]}
+           "yperms": [r.perm(Dy) if r.coin(0.5) else None for _ in range(N)], "ufs": [r.coin(0.5) for _ in range(N)],
+           "xperms": [r.perm(m["S0"].shape[0]) if r.coin(0.4) else None for _ in range(N)]}
     for t in range(1, N):
         if r.coin(rate):
             sch["faults"][str(t)] = [gen_fault(r)]
@@ -130,7 +131,8 @@ def gen_kalman_schedule(seed, k, m, rate):
     Dy = m["ys"].shape[1]
     sch = {"routes": [r.wchoice(["a", "b", "c"], [2, 2, 1.2]) for _ in range(T)], "faults": {},
            "inplace": [r.coin(0.6) for _ in range(T)],
-           "yperms": [r.perm(Dy) if r.coin(0.5) else None for _ in range(T)], "ufs": [r.coin(0.5) for _ in range(T)]}
+           "yperms": [r.perm(Dy) if r.coin(0.5) else None for _ in range(T)], "ufs": [r.coin(0.5) for _ in range(T)],
+           "xperms": [r.perm(len(m["m0"])) if r.coin(0.4) else None for _ in range(T)]}
     for t in range(1, T):
         if r.coin(rate):
             sch["faults"][str(t)] = [gen_fault(r)]
@@ -254,7 +256,7 @@ def _apply_faults(w, post, faults, t, stats, kind="pdf"):
     return w.slots[0].obj
 
 
-def _update(cond_i, prior, y_i, route, Dw, Dy, yperm=None, uf=False):
+def _update(cond_i, prior, y_i, route, Dw, Dy, yperm=None, uf=False, xperm=None):
     """One Bayesian update of `prior` with observation y_i through `route`; returns (posterior, log predictive).
 
     Route c (likelihood factor): the log predictive carries the K01 offset (Dy-Dw)/2 ln 2pi, accounted for by the caller."""
@@ -268,6 +270,14 @@ def _update(cond_i, prior, y_i, route, Dw, Dy, yperm=None, uf=False):
     if route == "b" and yperm is not None:
         joint = cond_i.affine_joint_transformation(prior)
         ydims = np.arange(Dw, Dw + Dy)[np.asarray(yperm)]
+        if xperm is not None:
+            # explicit variant: free coordinates requested in another order, then put back in place
+            xdims = np.arange(Dw)[np.asarray(xperm)]
+            post_c = joint.condition_on_explicit(jnp.asarray(ydims), jnp.asarray(xdims))
+            post_p = post_c.condition_on_x(jnp.asarray(y_i[np.asarray(yperm)][None]))
+            post = post_p.get_marginal(jnp.asarray(np.argsort(np.asarray(xperm))))
+            lp = A(joint.get_marginal(ydims).evaluate_ln(jnp.asarray(y_i[np.asarray(yperm)][None])))[0, 0]
+            return post, lp
         post_c = joint.condition_on(ydims)
         post = post_c.condition_on_x(jnp.asarray(y_i[np.asarray(yperm)][None]))
         lp = A(joint.get_marginal(ydims).evaluate_ln(jnp.asarray(y_i[np.asarray(yperm)][None])))[0, 0]
@@ -322,7 +332,8 @@ def run_bayes(m, sch, w):
         post = _apply_faults(w, post, sch["faults"].get(str(t)), t, w.stats)
         cond_i = cond.slice(jnp.asarray([i]))
         post, lp = _update(cond_i, post, y[i], sch["routes"][t], Dw, Dy,
-                           yperm=(sch.get("yperms") or [None] * N)[t], uf=(sch.get("ufs") or [False] * N)[t])
+                           yperm=(sch.get("yperms") or [None] * N)[t], uf=(sch.get("ufs") or [False] * N)[t],
+                           xperm=(sch.get("xperms") or [None] * N)[t])
         ref.envelope(post)
         ref.I_coh(post, where=f"bayes step {t} obs {i} route {sch['routes'][t]}")
         ev += lp
@@ -368,7 +379,8 @@ def run_kalman(m, sch, w):
                 emis = C.ConditionalGaussianPDF(M=jnp.asarray(A(m["C"])[None]), b=jnp.asarray(A(m["d"])[None]), Sigma=jnp.asarray(Rt[None]))
         pred = trans.affine_marginal_transformation(filt)
         filt, lp = _update(emis, pred, ys[t], sch["routes"][t], Dz, Dy,
-                           yperm=(sch.get("yperms") or [None] * T)[t], uf=(sch.get("ufs") or [False] * T)[t])
+                           yperm=(sch.get("yperms") or [None] * T)[t], uf=(sch.get("ufs") or [False] * T)[t],
+                           xperm=(sch.get("xperms") or [None] * T)[t])
         ref.envelope(filt)
         ref.I_coh(filt, where=f"kalman step {t} route {sch['routes'][t]}")
         ev += lp
@@ -494,7 +506,7 @@ def run(seed, tier, prop="C11"):
         digests.append(util.sha_bytes(A(fin[0]), A(fin[1]), np.asarray(fin[2])))
         nontriv = bool(sch.get("one_shot")) or getattr(w, "fired", 0) > 0 or sch.get("perm", None) != sorted(sch.get("perm", [])) or "b" in sch.get("routes", []) or "c" in sch.get("routes", []) or any(sch.get("inplace", []))
         if nontriv:
-            sigs.append(util.sha_bytes(kind, repr(sch.get("perm")), repr(sch.get("routes")), repr(sch.get("inplace")), repr(sch.get("hows")), repr(sch.get("ufs")), repr(sch.get("yperms")), repr(sorted(sch["faults"].items())),
+            sigs.append(util.sha_bytes(kind, repr(sch.get("perm")), repr(sch.get("routes")), repr(sch.get("inplace")), repr(sch.get("hows")), repr(sch.get("ufs")), repr(sch.get("yperms")), repr(sch.get("xperms")), repr(sorted(sch["faults"].items())),
                                        repr([np.shape(m[k2]) for k2 in sorted(m) if hasattr(m[k2], "shape")]), m.get("cond_cls", m.get("trans_cls"))))
         res["known"] = sorted(set(res["known"]) | set(w.known))
     if res["ok"] and len(finals) > 1:
